@@ -1,17 +1,59 @@
 (* Glue around the extracted model: a line-based request/response loop.
-   Strings are code points joined by '.', "e" is the empty string. *)
+   Strings are code points joined by '.', "e" is the empty string.
+   Oracles (third-party crates and bulk data) are answered by the harness: while a request is being
+   evaluated the driver may print "Q <kind> <args>" and reads the answer "A <value>" from stdin;
+   answers are memoised for the life of the process. *)
 open Model
 
 let rec pos_of_int n = if n = 1 then XH else if n land 1 = 0 then XO (pos_of_int (n lsr 1)) else XI (pos_of_int (n lsr 1))
 let n_of_int n = if n = 0 then N0 else Npos (pos_of_int n)
 let rec int_of_pos = function XH -> 1 | XO p -> 2 * int_of_pos p | XI p -> 2 * int_of_pos p + 1
 let int_of_n = function N0 -> 0 | Npos p -> int_of_pos p
+let rec nat_of_int n = if n <= 0 then O else S (nat_of_int (n - 1))
+let rec int_of_nat = function O -> 0 | S n -> 1 + int_of_nat n
 
-let str_of_tok t = if t = "e" then [] else List.map (fun s -> n_of_int (int_of_string s)) (String.split_on_char '.' t)
+let str_of_tok t = if t = "e" || t = "" then [] else List.map (fun s -> n_of_int (int_of_string s)) (String.split_on_char '.' t)
 let tok_of_str s = if s = [] then "e" else String.concat "." (List.map (fun c -> string_of_int (int_of_n c)) s)
 let bool_of_tok t = t = "1"
 let tok_of_bool b = if b then "1" else "0"
+let list_of_tok t = if t = "-" || t = "" then [] else List.map str_of_tok (String.split_on_char '+' t)
+let tok_of_list l = if l = [] then "-" else String.concat "+" (List.map tok_of_str l)
+let assoc_of_tok t =
+  if t = "-" || t = "" then []
+  else List.map (fun kv -> match String.split_on_char '=' kv with
+                           | [k; v] -> (str_of_tok k, str_of_tok v)
+                           | _ -> failwith "assoc") (String.split_on_char ',' t)
 
+(* ---------------------------------------------------------------- oracles answered by the harness *)
+let cache : (string, string) Hashtbl.t = Hashtbl.create 65536
+let query (q : string) : string =
+  match Hashtbl.find_opt cache q with
+  | Some a -> a
+  | None ->
+      print_string ("Q " ^ q ^ "\n"); flush stdout;
+      let line = input_line stdin in
+      let a = if String.length line >= 2 && String.sub line 0 2 = "A " then String.sub line 2 (String.length line - 2)
+              else if line = "A" then "" else failwith ("oracle answer expected, got " ^ line) in
+      if Hashtbl.length cache < 3_000_000 then Hashtbl.add cache q a;
+      a
+
+let opt_str a = if a = "n" then None else Some (str_of_tok (String.sub a 1 (String.length a - 1)))
+let opt_list a = if a = "n" then None else Some (list_of_tok (String.sub a 1 (String.length a - 1)))
+
+let oracles : oracles = {
+  conv = (fun s -> if s = [] then [] else str_of_tok (query ("conv " ^ tok_of_str s)));
+  hits = (fun t w -> list_of_tok (query ("hits " ^ tok_of_str t ^ " " ^ tok_of_str w)));
+  edist = (fun a b -> n_of_int (int_of_string (query ("ed " ^ tok_of_str a ^ " " ^ tok_of_str b))));
+  ac_sys = (fun w -> opt_str (query ("ac " ^ tok_of_str w)));
+  suffix_of = (fun w -> opt_str (query ("suf " ^ tok_of_str w)));
+  emoticon = (fun w -> opt_str (query ("emo " ^ tok_of_str w)));
+  emoji_name = (fun w -> opt_list (query ("ename " ^ tok_of_str w)));
+  dict = (fun t cw -> list_of_tok (query ("dict " ^ tok_of_str t ^ " " ^ tok_of_str cw)));
+  emoji_bn = (fun w -> opt_list (query ("ebn " ^ tok_of_str w)));
+  bijoy = (fun s -> str_of_tok (query ("bijoy " ^ tok_of_str s)));
+}
+
+(* ---------------------------------------------------------------- fixed composition (lonely) *)
 let fopts_of_bits b =
   { o_vowel = b land 1 <> 0; o_chandra = b land 2 <> 0; o_kar = b land 4 <> 0; o_old_reph = b land 8 <> 0; o_kar_order = b land 16 <> 0 }
 
@@ -27,6 +69,86 @@ let fevent_of_tok t =
   | 'f' -> FFinish
   | _ -> failwith ("event " ^ t)
 
+(* ---------------------------------------------------------------- outputs *)
+let tok_of_output o ongoing =
+  (match o with
+   | OFull (aux, l, sel, ansi) -> "F:" ^ string_of_int (int_of_nat sel) ^ ":" ^ tok_of_bool ansi ^ ":" ^ tok_of_str aux ^ ":" ^ tok_of_list l
+   | OSingle (s, ansi) -> "S:" ^ tok_of_bool ansi ^ ":" ^ tok_of_str s
+   | OUnit -> "U") ^ ":" ^ tok_of_bool ongoing
+
+(* ---------------------------------------------------------------- phonetic *)
+let pcfg_of_bits b = { c_english = b land 1 <> 0; c_suggest = b land 2 <> 0; c_ansi = b land 4 <> 0; c_smart = b land 8 <> 0 }
+
+let pevent_of_tok t =
+  let rest = String.sub t 1 (String.length t - 1) in
+  match t.[0] with
+  | 'k' -> (match String.split_on_char '.' rest with
+            | [k; s] -> PKey (n_of_int (int_of_string k), n_of_int (int_of_string s))
+            | _ -> failwith "key event")
+  | 'b' -> PBackspace (t = "b1")
+  | 'c' -> PCommit (nat_of_int (int_of_string rest))
+  | 'f' -> PFinish
+  | 'u' -> (match String.split_on_char ':' rest with
+            | [bits; "n"] -> PUpdate (pcfg_of_bits (int_of_string bits), None)
+            | [bits; r] -> PUpdate (pcfg_of_bits (int_of_string bits), Some (assoc_of_tok r))
+            | _ -> failwith "update event")
+  | _ -> failwith ("event " ^ t)
+
+let run_phonetic bits uac sels evs =
+  let rec go c s evs acc =
+    match evs with
+    | [] -> List.rev acc
+    | e :: t ->
+        (match p_step oracles c s e with
+         | Some ((c', s'), o) -> go c' s' t (tok_of_output o (p_ongoing s') :: acc)
+         | None -> List.rev ("PANIC" :: acc))
+  in
+  go (pcfg_of_bits bits) (p_new uac sels) evs []
+
+(* ---------------------------------------------------------------- fixed with suggestions *)
+let xcfg_of_bits b =
+  { x_opts = fopts_of_bits (b land 31); x_numpad = b land 32 <> 0; x_suggest = b land 64 <> 0; x_english = b land 128 <> 0;
+    x_ansi = b land 256 <> 0; x_smart = b land 512 <> 0 }
+
+let xevent_of_tok t =
+  let rest = String.sub t 1 (String.length t - 1) in
+  match t.[0] with
+  | 'k' -> (match String.split_on_char '.' rest with
+            | [k; m] -> XKey (n_of_int (int_of_string k), n_of_int (int_of_string m))
+            | _ -> failwith "key event")
+  | 'b' -> XBackspace (t = "b1")
+  | 'c' -> XCommit
+  | 'f' -> XFinish
+  | 'u' -> XUpdate (xcfg_of_bits (int_of_string rest))
+  | _ -> failwith ("event " ^ t)
+
+(* the sorted list before the cut, each item with the number of its tie group, for comparison modulo sort_unstable *)
+let parts_tok c s =
+  let ((l, cut), tail) = dictionary_suggestion_parts oracles c (x_buffer s) s.x_typed in
+  let rec groups prev g = function
+    | [] -> []
+    | x :: t -> let g' = (match prev with Some p when rank_cmp p x = Eq -> g | Some _ -> g + 1 | None -> g) in
+                (string_of_int g' ^ "~" ^ tok_of_str (rstr x)) :: groups (Some x) g' t in
+  let items = groups None 0 l in
+  string_of_int (int_of_nat cut) ^ ":" ^ (match tail with Some x -> "t" ^ tok_of_str (rstr x) | None -> "n") ^ ":"
+  ^ (if items = [] then "-" else String.concat "+" items)
+
+let run_fixed lay bits evs =
+  let rec go c s evs acc =
+    match evs with
+    | [] -> List.rev acc
+    | e :: t ->
+        let ((c', s'), o) = x_step oracles (layout_of lay) c s e in
+        let extra = (match o with OFull _ -> ":" ^ parts_tok c' s' | _ -> "") in
+        go c' s' t ((tok_of_output o (x_ongoing s') ^ extra) :: acc)
+  in
+  go (xcfg_of_bits bits) x_init evs []
+
+(* ---------------------------------------------------------------- long-lived sessions *)
+let psessions : (string, pcfg * pstate) Hashtbl.t = Hashtbl.create 16
+let xsessions : (string, string * xcfg * xstate) Hashtbl.t = Hashtbl.create 16
+let tok_of_assoc l = if l = [] then "-" else String.concat "," (List.map (fun (k, v) -> tok_of_str k ^ "=" ^ tok_of_str v) l)
+
 let handle line =
   match String.split_on_char ' ' (String.trim line) with
   | "F" :: lay :: bits :: numpad :: evs ->
@@ -37,6 +159,42 @@ let handle line =
       let evs = List.filter (fun s -> s <> "") evs in
       let obs = f_run_obs (layout_of lay) (fopts_of_bits (int_of_string bits)) (bool_of_tok numpad) (List.map fevent_of_tok evs) in
       "R " ^ String.concat " " (List.map (fun (t, o) -> tok_of_str t ^ "/" ^ tok_of_bool o) obs)
+  | "P" :: bits :: uac :: sels :: evs ->
+      let evs = List.filter (fun s -> s <> "") evs in
+      "R " ^ String.concat " " (run_phonetic (int_of_string bits) (assoc_of_tok uac) (assoc_of_tok sels) (List.map pevent_of_tok evs))
+  | "X" :: lay :: bits :: evs ->
+      let evs = List.filter (fun s -> s <> "") evs in
+      "R " ^ String.concat " " (run_fixed lay (int_of_string bits) (List.map xevent_of_tok evs))
+  | ["PNEW"; id; bits; uac; sels] ->
+      Hashtbl.replace psessions id (pcfg_of_bits (int_of_string bits), p_new (assoc_of_tok uac) (assoc_of_tok sels)); "R ok"
+  | ["PEV"; id; ev] ->
+      (match Hashtbl.find_opt psessions id with
+       | None -> "E no phonetic session"
+       | Some (c, s) ->
+           (match p_step oracles c s (pevent_of_tok ev) with
+            | Some ((c', s'), o) -> Hashtbl.replace psessions id (c', s'); "R " ^ tok_of_output o (p_ongoing s')
+            | None -> "R PANIC"))
+  | ["PSELS"; id] ->
+      (match Hashtbl.find_opt psessions id with None -> "E no phonetic session" | Some (_, s) -> "R " ^ tok_of_assoc s.p_sels)
+  | ["PSTATE"; id] ->
+      (match Hashtbl.find_opt psessions id with None -> "E no phonetic session"
+       | Some (_, s) -> "R " ^ tok_of_str s.p_buf ^ " " ^ string_of_int (int_of_nat s.p_prev) ^ " " ^ tok_of_list (List.map fst s.p_memo))
+  | ["DROP"; id] -> Hashtbl.remove psessions id; Hashtbl.remove xsessions id; "R ok"
+  | ["XNEW"; id; lay; bits] -> Hashtbl.replace xsessions id (lay, xcfg_of_bits (int_of_string bits), x_init); "R ok"
+  | ["XEV"; id; ev] ->
+      (match Hashtbl.find_opt xsessions id with
+       | None -> "E no fixed session"
+       | Some (lay, c, s) ->
+           let ((c', s'), o) = x_step oracles (layout_of lay) c s (xevent_of_tok ev) in
+           Hashtbl.replace xsessions id (lay, c', s');
+           let extra = (match o with OFull _ -> ":" ^ parts_tok c' s' | _ -> "") in
+           "R " ^ tok_of_output o (x_ongoing s') ^ extra)
+  | ["SPLIT"; s; colon] ->
+      let ((a, b), c) = split (str_of_tok s) (bool_of_tok colon) in
+      "R " ^ tok_of_str a ^ " " ^ tok_of_str b ^ " " ^ tok_of_str c
+  | ["SQ"; s; colon] ->
+      let ((a, b), c) = smart_quoter (split (str_of_tok s) (bool_of_tok colon)) in
+      "R " ^ tok_of_str a ^ " " ^ tok_of_str b ^ " " ^ tok_of_str c
   | ["PKV"; bits; rb; pend; v] ->
       let pend = if pend = "n" then None else Some (n_of_int (int_of_string pend)) in
       let (rb', pend') = process_key_value (fopts_of_bits (int_of_string bits)) (str_of_tok rb) pend (str_of_tok v) in
